@@ -36,14 +36,14 @@ CLAIMS = {
          "For two clients and origins with distinct, shared and issuer-generated index keys, sequences of 2..4 full runs (CreateTokenRequest, VerifyRequest, issuer Evaluate, FinalizeIndex) with independent blinds, nonces and challenges must all return HKDF-SHA-384(salt=client key, ikm=client key blinded by the index key, info=IssuerOriginAlias) as computed by the harness over crypto/hmac and crypto/elliptic; IDs must be distinct across clients and distinct index keys, equal for a shared index key.",
          "DESIGN.md section 4 C08", ""),
  "C09": ("stateful model-based testing (rapid state machine) + bounded-exhaustive enumeration of all short histories",
-         "Histories over verify/finalize actions on 3 clients (one never verified), 4 origins (two sharing an index key) and 3 anonymous origin IDs are run against a fresh attester and a two-map model; every decision and returned ID must match the model, accepted pairs must stay accepted and a second ID for a bound index must stay refused after the history. All histories of length <=3 (quick) / <=4 (thorough) over a 10-letter alphabet are enumerated.",
+         "Histories over verify/finalize actions on 4 client keys (one never verified, one the negation of a verified key), 4 origins (two sharing an index key) and 5 anonymous origin IDs (one empty, one byte-equal to an issuer origin ID of the same client), with failing verifications and verifications by harness-built authentic requests with unusual blind values, are run against a fresh attester and a two-map model; every decision and returned ID must match the model, a panic is a violation, accepted pairs must stay accepted and a second ID for a bound index must stay refused after the history. All histories of length <=3 (quick) / <=4 (thorough) over a 16-letter alphabet are enumerated.",
          "DESIGN.md section 4 C09", ""),
  "C02": ("rapid PBT of attacker transformations of honest responses with a MUST-REJECT / SUCCESS-IMPLIES-VALID oracle; exhaustive single-bit sweep per sampled run",
          "Each case draws two outstanding requests under one key plus a response under a foreign key (type 3: a second issuer with the same name key and another token key), then hands the client bit-flipped, cross-wired, foreign-key, dropped/duplicated/swapped (type 5), truncated, extended, zeroed, random and re-framed responses. Success is only allowed outside the MUST-REJECT classes and only with tokens that verify independently under the pinned key and carry the request's nonce, digest and key id. Every bit position of a response is swept per type.",
          "DESIGN.md section 4 C02", "Concrete attacker moves listed in the property, not all adversaries; unforgeability of circl/stdlib primitives is assumed."),
  "C05": ("model-based rapid PBT over batch compositions and issuer configurations, with a metamorphic isolation relation",
-         "Issuer sets (0..2 type-1 and 0..2 type-2 issuers, distinct truncated ids by construction) and batches over {known key, unknown key, malformed element/message, unsupported type} are generated; the model computes per-request presence by calling the per-type issuer directly; the response must decode to one entry per request in order, presence must match, present entries must finalize to verifying tokens, and the good requests alone must give the same deterministic response parts. In-memory and wire paths.",
-         "DESIGN.md section 4 C05", "Truncated key-id collisions between same-type issuers are outside the domain (no implementation can satisfy the property there); skips are counted."),
+         "Issuer sets (0..2 type-1 and 0..2 type-2 issuers in drawn order, several batches per issuer, cross-type truncated-id collisions) and batches over {known key, unknown key, malformed element/message incl. type-2 messages N, N+-1, 0, 1, unsupported type} are generated; the model computes per-request presence by calling the per-type issuer directly; the response must decode to one entry per request in order, presence must match, present entries must finalize to verifying tokens, and the good requests alone must give the same deterministic response parts. In-memory and wire paths; a second test uses a key pair whose truncated ids collide within one type, a third batches whose response crosses the varint length boundaries.",
+         "DESIGN.md sections 4 C05 and 9", "Same-type truncated key-id collisions are in the domain for presence; the finalization clause is skipped only when two issuers both evaluate one request (no implementation can know which response the client can use); skips are counted."),
  "C10": ("exhaustive single-bit sweep + generated field variants against the circl FullEvaluate oracle",
          "For drawn type-1 and type-5 tokens: every single-bit variant, foreign keys, the other type's issuer (with/without type rewrite), moved field boundaries, truncated/extended authenticators and replaced fields are verified; the verdict must equal 'authenticator == VOPRF_key(type||nonce||context||key id)' computed through circl directly, in both directions.",
          "DESIGN.md section 4 C10", "VOPRF evaluation reference is circl itself (independent of pat-go, not of circl)."),
@@ -60,7 +60,7 @@ CLAIMS = {
          "Generated honest runs of all four token types in which request and response cross the wire as copied bytes into fresh objects; keys, challenges of any length, nonces, batch sizes (incl. varint-boundary sizes), origin names, client randomness (DRBG seeded from drawn values) and the WithBlind entry points are all drawn. Exploration: the property is a for-all over inputs with a cheap exact oracle.",
          "DESIGN.md section 4 C01", ""),
  "C03": ("structure-aware mutation PBT + bounded-exhaustive enumeration (prefixes, short strings, hostile length values x encodings x field offsets) with a panic/allocation/process-death oracle; native go fuzz per target in thorough",
-         "25 byte-consuming entry points (14 decoders, 4 client finalizations, issuer/attester/verification steps) are driven with every prefix of valid messages, every byte string of length <=2, the product of hostile length values with every encoding at every field offset, and rapid-generated structure-aware mutations (field re-framing, splices, length overwrites). Oracle: no panic, TotalAlloc delta <= 8MiB+1024*len, worker survives (in-flight record + fresh-process confirmation for fatal runtime errors). Thorough adds coverage-guided native fuzzing of each target with the same oracle inside.",
+         "28 byte-consuming entry points (two of them behind a harness-side re-signing step, so that mutated type-3 requests pass the signature check) (14 decoders, 4 client finalizations, issuer/attester/verification steps) are driven with every prefix of valid messages, every byte string of length <=2, the product of hostile length values with every encoding at every field offset, and rapid-generated structure-aware mutations (field re-framing, splices, length overwrites). Oracle: no panic, TotalAlloc delta <= 8MiB+1024*len, worker survives (in-flight record + fresh-process confirmation for fatal runtime errors). Thorough adds coverage-guided native fuzzing of each target with the same oracle inside.",
          "DESIGN.md sections 3.3 and 4 C03", "Non-termination is detected only through the test deadline + fresh-process re-run of the in-flight input (300 s)."),
  "C04": ("rapid PBT against independent reference encoders: round trip, accepted-bytes law on mutated inputs, object-reuse pairs; exhaustive 65536-tag sweep for type separation; Rust interop vectors",
          "For each of 13 wire structures: values drawn field by field are encoded by a reference encoder written from the TLS structs and compared with pat-go's Marshal and decoder; mutated encodings that a decoder accepts must re-encode no longer, stably, and equal Marshal(); request objects are reused across (previous value, new bytes) pairs; every request decoder sees its body under all 65536 tags. Exploration with an exhaustive tag sub-domain.",
